@@ -1365,8 +1365,7 @@ def update_alias_registered():
 
 
 CLASSIFIERS = {"c08_component_name_with_regex_metacharacters": classify_regex_name,
-               "c08_update_component_aliases_template": classify_update_alias,
-               "c08_cache_label_collision": classify_label_collision}
+               "c08_update_component_aliases_template": classify_update_alias}
 
 
 def name_tags(case):
@@ -1460,16 +1459,14 @@ def check_histories(ctx, cases):
     kept = []
     for case in cases:
         pair = colliding_labels(case)
+        kept.append(case)
         if pair is None:
-            kept.append(case)
             continue
-        # finding on the unchanged tree (fixes/C08-cache-label-collision.diff): two triples of this case share one
-        # cache label.  The model keeps labels as triples and the from-scratch objects collide in the same way, so
-        # the case says nothing else; it is reported under one slug (accepted by c08_cache_label_collision once the
-        # coordinator has registered the finding; until then only tagged)
-        ctx.tag("finding:" + LABEL_COLLISION)
-        if not label_collision_registered():
-            continue
+        # two triples of this case would share the text `<platform>:stage<i>:<name>`.  Before /repo 'fix: component
+        # cache labels spell out ...' they shared one cache label and a query of one was answered with the cached
+        # configuration of the other (the from-scratch objects collided in the same way, so this direct oracle is what
+        # shows it): a query must answer the component it was asked about
+        ctx.tag("platform-name:would-collide-as-plain-label")
         try:
             F = _F()
             conc = F.FlowIRConcrete(copy.deepcopy(case["doc"]), case.get("active", "default"), {})
